@@ -287,18 +287,28 @@ CLAIMS = {
         note=COMMON_NOTE + "Outside the model: numpy RNG stream, the statistical clause 'follows the weights'; relative "
              "tolerance 2^-40 only where weights=None with three triangles (1/3).",
         tech="Lean 4 theorems over Q on a blend model with the RNG draws as parameters + differential correspondence"),
-    "C17": dict(level=PV, ref="§7 C17",
-        text="PARTIAL (resampling distributions, maximum-entropy quantile arithmetic and the mean/variance match of moment_match are statistical and outside the model; the structural content is proved). 30 kernel-checked theorems, none open, about the structural core of the resamplers (incl. the guards of maximum_entropy_ensemble in code order, meEnsembleRaw_eq_meEnsemble): reimposeRank_order / _perm "
-             "(rank re-imposition used by maximum-entropy bootstrap and moment_match), develop_first_unchanged, "
-             "develop_coords_fields, bootstrap_count, thin_same_positions, thin_scalars_untouched, thin_eq_self, "
-             "thin_error, momentMatch_structure, momentMatch_other_fields, bootstrap_structure for EVERY factor table and "
-             "draw vector, Spec bridges. RNG draws are parameters. "
-             "Correspondence: Spec predicates on implementation outputs (structure, bootstrap=i detail, first cell "
-             "unchanged, rank order, thin index consistency, same seed same output).",
-        note=COMMON_NOTE + "Outside the model (checked numerically in Python only, labelled in the evidence): resampling "
-             "distributions, maximum-entropy quantile arithmetic, mean/variance match of moment_match; numpy RNG.",
-        tech="Lean 4 theorems on rank re-imposition / thinning / development models + Spec predicates on "
-             "implementation outputs"),
+    "C17": dict(level=PV, ref="§7 C17, §12.6",
+        text="PARTIAL (the DISTRIBUTION of the draws - volume weights of rng.choice, uniformity of rng.uniform, numpy's samplers, hence the realised mean/variance "
+             "of moment-matched samples - and the lognormal parameters (log/sqrt) are statistical/transcendental and outside the model; the deterministic "
+             "arithmetic of all three resamplers is inside, over Q with the RNG draws as parameters). 57 kernel-checked theorems, none open: "
+             "reimposeRank_order / _perm, develop_first_unchanged, develop_coords_fields, bootstrap_count, thin_same_positions, "
+             "thin_scalars_untouched, thin_eq_self, thin_error, momentMatch_structure, momentMatch_other_fields, bootstrap_structure for EVERY "
+             "draw vector; maximum_entropy_ensemble statement by statement (trimmed-mean / explicit limits, interval ends, mean-preserving "
+             "shift, searchsorted index, piecewise-linear quantile function, sorted(quantiles), rank re-imposition, guards in code order): "
+             "me_index, me_interval_ends, me_quantile_in_interval, me_quantile_mono(_within), me_quantile_not_monotone (why sorted is needed), "
+             "me_output, me_envelope, me_within_limits (the replicate stays inside the given limits exactly when limitsBind holds), "
+             "me_within_limits_trimmed, me_bootstrap_limits, me_exceeds_upper_limit (kernel-checked witness of known finding D26); the "
+             "age-to-age arithmetic (empirical factors, resampling by drawn positions, develop_value: k-th cell = first * product of factors, "
+             "chain_identity, bootstrapD_is_bootstrap); moment_match's sampler arguments (mean, population variance, count, gamma_params_match); "
+             "Spec bridges. Correspondence: recorded uniform / index draws handed to the model, Spec predicates on implementation outputs "
+             "(structure, bootstrap=i detail, first cell unchanged, rank order, interval/envelope/limits/permutation/value clauses, chained "
+             "product, thin index consistency, same seed same output), series of 1..1000 values, late-slice / twin / derived-warm-cache / "
+             "identity-draw streams.",
+        note=COMMON_NOTE + "Known finding D26 (known_findings.json): 'within the given limits' is false of the code when the limits do not "
+             "bind (KNOWN-FINDING line for that signature only). float64 vs exact rationals: relative tolerance 2^-40 on the magnitude of the "
+             "series in the harness/Spec slack only. Numeric-only Python checks: moment_match mean/std bands, lognormal parameters.",
+        tech="Lean 4 theorems over Q on models of the three resamplers with the RNG draws as parameters + Spec predicates on "
+             "implementation outputs + differential correspondence"),
     "C18": dict(level=PV, ref="§7 C18",
         text="32 kernel-checked theorems, none open: currency_spec (bijection input/output cells, exactly the generated "
              "currency fields times the slice rate, everything else unchanged, target set; both refusals), disagg_sum "
